@@ -331,6 +331,11 @@ func (p *parser) unary() Expr {
 		p.next()
 		return &EUnary{"-", p.unary()}
 	}
+	if p.isOp("*") {
+		// *x: the value a pointer to a non-struct type (a named slice, ...) points to
+		p.next()
+		return &EUnary{"*", p.unary()}
+	}
 	return p.postfix()
 }
 
